@@ -97,7 +97,17 @@ def cases(draw):
         tw = draw(st.lists(st.sampled_from(words + glabels), min_size=1, max_size=4))
         script.append({"agent": draw(st.sampled_from(["A", "B", "B", "Ç"])), "text": " ".join(tw),
                        "adv_ms": draw(st.sampled_from([1000, 60000, 86400000]))})
-    return {"eps": eps, "graphs": graphs, "gel": gel, "feats": feats, "vals": vals, "base": base, "script": script,
+    if script and draw(st.booleans()):
+        script.append(dict(draw(st.sampled_from(script))))  # a verbatim repeat: cache hit candidate
+    clock = draw(st.sampled_from(["normal", "normal", "zero_fixed", "zero_start"]))
+    if clock == "zero_fixed":
+        for s_ in script:
+            s_["adv_ms"] = 0
+    elif clock == "zero_start":
+        script[0]["adv_ms"] = 0
+        for s_ in script[1:]:
+            s_["adv_ms"] = draw(st.sampled_from([1000, 200000, 400000]))
+    return {"eps": eps, "graphs": graphs, "gel": gel, "feats": feats, "vals": vals, "base": base, "script": script, "clock": clock,
             "encoder": draw(st.sampled_from(["bow", "default"]))}
 
 
@@ -127,7 +137,7 @@ def run_case(case) -> dict:
             eng.state["_planner_reflection_flag"] = True
         cfg = eng.cfg(overrides)
         lines, work_t1, work_t2 = [], False, False
-        now = world.NOW_MS
+        now = world.NOW_MS if case.get("clock", "normal") == "normal" else 0
         for i, st_ in enumerate(case["script"], 1):
             now += st_["adv_ms"]
             r = eng.turn(st_["agent"], st_["text"], cfg, i, now)
@@ -166,7 +176,7 @@ def full_logs(case) -> dict:
         if "reflection" in case["feats"]:
             eng.state["_planner_reflection_flag"] = True
         cfg = eng.cfg(overrides)
-        now = world.NOW_MS
+        now = world.NOW_MS if case.get("clock", "normal") == "normal" else 0
         for i, st_ in enumerate(case["script"], 1):
             now += st_["adv_ms"]
             eng.turn(st_["agent"], st_["text"], cfg, i, now)
@@ -182,7 +192,7 @@ def install_clock_perturbation(seed: int):
     import types
 
     rng = random.Random(seed)
-    st_ = {"t": 1000.0, "w": 1.7e9}
+    st_ = {"t": 1000.0, "w": rng.choice([1.7e9, 0.0, 5.0e9])}  # wall-clock origin shifted as well
 
     def fake_pc():
         r = rng.random()
@@ -287,7 +297,7 @@ def sub_repro(rec, seed, shard, nshards, n=40, envs=2, shrink=True):
         agents = {s["agent"] for s in case["script"]}
         nt = o0["_work"] and len(agents) >= 2
         rec.case(nontrivial=nt, dig=digest(case) if nt else None,
-                 labels=[f"feat={f}" for f in case["feats"]] + [f"encoder={case.get('encoder')}"] + (["work"] if o0["_work"] else []) +
+                 labels=[f"feat={f}" for f in case["feats"]] + [f"encoder={case.get('encoder')}", f"clock={case.get('clock')}"] + (["work"] if o0["_work"] else []) +
                         (["exc"] if any(str(x).startswith("EXC:") for x in o0["lines"]) else []) +
                         (["yielded"] if "log:scheduler.jsonl(masked)" in o0 else []),
                  sample={"feats": case["feats"], "script": case["script"], "lines": o0["lines"],
